@@ -69,23 +69,23 @@ BASE = """
       <site name="sf2" type="sphere" size=".15" pos=".12 0 -.05"/>
       <camera name="camf" pos="0 0 .1"/>
       <body name="bf1" pos="0 0 .25">
-        <joint name="hf" type="hinge" axis="1 0 0" stiffness="1"/>
+        <joint name="hf" type="hinge" axis="1 0 0" stiffness="1 2 0"/>
         <geom name="gf3" type="sphere" size=".05" pos="0 .1 0"/>
         <site name="sf3" pos="0 .1 0"/>
       </body>
     </body>
     <body name="b0" pos="0.1 0.2 0.8" quat=".9 .1 .2 .3">
-      <joint name="slide" type="slide" axis="1 .2 0" stiffness="3" springref=".1" limited="true" range="-.2 .2" margin=".05"/>
+      <joint name="slide" type="slide" axis="1 .2 0" stiffness="3 10 5" springref=".1" limited="true" range="-.2 .2" margin=".05"/>
       <geom name="g0" type="sphere" size=".1" pos=".05 0 0" contype="0" conaffinity="0"/>
       <geom name="g0b" type="capsule" size=".05 .1" pos="0 .25 0" contype="0" conaffinity="0"/>
       <site name="s0" pos=".1 .1 0" quat=".8 .2 .1 .3" size=".12"/>
       <camera name="cam0" pos="0 0 .2" quat=".9 .1 0 .2" resolution="32 32" sensorsize="0.01 0.01" focal="0.02 0.02"/>
       <body name="b1" pos=".35 0 .1">
-        <joint name="hinge" type="hinge" axis="0 1 .3" stiffness="2" springref="-.2" limited="true" range="-.5 .5" margin=".1"/>
+        <joint name="hinge" type="hinge" axis="0 1 .3" stiffness="2 -6 4" springref="-.2" limited="true" range="-.5 .5" margin=".1"/>
         <geom name="g1" type="box" size=".1 .05 .07" pos="0.1 0 0" quat=".9 .2 0 .1" contype="0" conaffinity="0"/>
         <site name="s1" type="box" size=".3 .3 .3" pos=".05 0 0" quat=".7 .1 .5 .2"/>
         <body name="b2" pos=".3 .1 0">
-          <joint name="ball" type="ball" stiffness="1.5" limited="true" range="0 .5" margin=".2"/>
+          <joint name="ball" type="ball" stiffness="1.5 3 2" limited="true" range="0 .5" margin=".2"/>
           <geom name="g2" type="capsule" size=".04 .12" pos="0 0 .1" contype="0" conaffinity="0"/>
           <geom name="g2b" type="sphere" size=".06" pos=".1 .1 0" contype="0" conaffinity="0"/>
           <site name="s2" type="ellipsoid" size=".25 .2 .3" pos="0 .05 .05"/>
@@ -95,11 +95,11 @@ BASE = """
     </body>
   </worldbody>
   <tendon>
-    <fixed name="tfix" stiffness="2" springlength="0.02 0.05" limited="true" range="-.05 .05" margin=".03">
+    <fixed name="tfix" stiffness="2 30 10" springlength="0.02 0.12" limited="true" range="-.05 .05" margin=".03">
       <joint joint="slide" coef="0.8"/>
       <joint joint="hinge" coef="-0.5"/>
     </fixed>
-    <spatial name="tspat" stiffness="4" springlength="0.2" limited="true" range="0 .6" margin=".3">
+    <spatial name="tspat" stiffness="4 -20 15" springlength="0.42 0.5" limited="true" range="0 .6" margin=".3">
       <site site="sitew"/>
       <site site="s1"/>
     </spatial>
@@ -742,6 +742,10 @@ def oracle(res, nstates, energy_modes):
       for w, d in enumerate(ds):
         mujoco.mj_forward(m, d)
         ncon_ref += d.ncon
+        for t in range(m.ntendon):  # spring deadband regime of every tendon in this state
+          lo, hi = m.tendon_lengthspring[t]
+          reg = "below" if d.ten_length[t] < lo else "above" if d.ten_length[t] > hi else "inside"
+          oracle.regimes[(t, reg)] = oracle.regimes.get((t, reg), 0) + 1
         pert = []
         for _ in range(3):
           d2 = mujoco.MjData(m)
@@ -787,12 +791,18 @@ def oracle(res, nstates, energy_modes):
         if s == 0 and w == 0 and energy:
           res.sample({"kind": "oracle", "nsensor": int(m.nsensor), "nsensordata": int(m.nsensordata), "compared": ncmp, "discarded_near_discontinuity": ndisc, "ncon": int(d.ncon), "energy": e_ref.tolist()})
   res.obligation("MuJoCo's binary obeys the transcribed cutoff rule (Model/Sensor.v mj_cutoff) on every twin sensor", not rule_bad, f"{len(rule_bad)} mismatches; first: {rule_bad[:1]}")
+  regs = {r for _, r in oracle.regimes}
+  res.extra["oracle_tendon_deadband_regimes"] = {f"tendon{t}:{r}": n for (t, r), n in sorted(oracle.regimes.items())}
+  res.obligation("oracle: polynomial-stiffness tendons visited below, inside and above their spring deadband", regs == {"below", "inside", "above"}, str(sorted(oracle.regimes.items())))
   per = compare_sensors.per_type
   wanted_kinds = {(tp, "cutoff" if c not in (0.0, "def") else "plain") for tp, _, c, _ in meta}
   never = sorted(k for k in wanted_kinds if per.get(k, 0) == 0)
   res.extra["oracle_compared_per_type"] = {f"{t}:{k}": n for (t, k), n in sorted(per.items())}
   res.obligation("oracle: every sensor type of the model (plain and with cutoff) compared at least once", not never, f"{len(per)} (type, cutoff) classes compared; never compared: {never}")
   return fails, models_, meta, xml
+
+
+oracle.regimes = {}
 
 
 # ---- directed regression cases of the defects found --------------------------------------------
@@ -837,6 +847,45 @@ def run_energy_flag():
   sens_ok = bool(np.abs(s - d.sensordata).max() < 1e-3)
   bad = sens_ok and bool(np.abs(e - d.energy).max() > 1e-3 * (1 + np.abs(d.energy).max()))
   return bad, {"xml": ENERGY_XML, "qpos0": [0.4], "qvel0": [1.5], "mujoco_energy": d.energy.tolist(), "mjwarp_energy": e.tolist(), "sensordata_agree": sens_ok}
+
+
+SPRING_XML = """<mujoco><option gravity="0 0 -2"><flag energy="{energy}" contact="disable"/></option><worldbody>
+<body pos="0 0 1"><joint name="s" type="slide" axis="1 0 0" stiffness="4 7 6" springref=".05"/><geom type="sphere" size=".05" mass=".5"/>
+<body pos=".3 0 0"><joint name="h" type="hinge" axis="0 1 0" stiffness="3 -2 1" springref=".2"/><geom type="capsule" size=".03" fromto="0 0 0 .3 0 0" mass=".3"/></body></body></worldbody>
+<tendon><fixed name="tp" stiffness="20 30 10" springlength=".1 .3"><joint joint="s" coef="1"/></fixed>
+<fixed name="tl" stiffness="15" springlength=".0 .2"><joint joint="h" coef="1"/></fixed></tendon>
+<sensor><e_potential/><e_kinetic/><tendonpos tendon="tp"/></sensor></mujoco>"""
+SPRING_STATES = {"below": [-0.2, -0.4], "inside": [0.2, 0.1], "above": [0.5, 0.6], "at-lower": [0.1, 0.0]}
+
+
+def run_spring_energy():
+  """Polynomial-stiffness tendon (deadband .1 .3) and joint springs, tendon below / inside / above the deadband:
+  data.energy and the e_potential / e_kinetic sensors vs MuJoCo, energy flag on and off."""
+  import mujoco
+  import warp as wp
+
+  import mujoco_warp as mjw
+
+  bad = []
+  for energy in ("enable", "disable"):
+    m = mujoco.MjModel.from_xml_string(SPRING_XML.format(energy=energy))
+    names = list(SPRING_STATES)
+    ds = []
+    for nm in names:
+      d = mujoco.MjData(m)
+      d.qpos[:] = SPRING_STATES[nm]
+      d.qvel[:] = [0.3, -0.7]
+      ds.append(d)
+    mm, dd = put_states(mjw, wp, m, ds)
+    mjw.forward(mm, dd)
+    en, sd = dd.energy.numpy().astype(np.float64), dd.sensordata.numpy().astype(np.float64)
+    for w, (nm, d) in enumerate(zip(names, ds)):
+      mujoco.mj_forward(m, d)
+      err = max(float(np.abs(en[w] - d.energy).max()), float(np.abs(sd[w] - d.sensordata).max()))
+      if err > 1e-4 * (1 + float(np.abs(d.energy).max())):  # energies here are O(1); float32 round-off ~1e-7
+        bad.append({"regime": nm, "energy_flag": energy, "qpos": SPRING_STATES[nm], "ten_length": d.ten_length.tolist(), "mujoco_energy": d.energy.tolist(), "mjwarp_energy": en[w].tolist(),
+                    "mujoco_sensordata": d.sensordata.tolist(), "mjwarp_sensordata": sd[w].tolist(), "err": err})  # fmt: skip
+  return bad
 
 
 def run_directed(key):
@@ -963,6 +1012,16 @@ def run(res):
       f"energy flag disabled and e_potential/e_kinetic sensors present: the sensors agree, but forward._energy_pos zeroes data.energy afterwards while MuJoCo leaves the values computed for the sensors: MuJoCo energy {np.round(data['mujoco_energy'], 4).tolist()} vs MJWarp {data['mjwarp_energy']}",
       {"kind": "energy-flag", **data},
     )
+  sbad = run_spring_energy()
+  res.count(8)
+  res.nontrivial(("directed", "spring-energy"))
+  for b in sbad[:1]:
+    found = True
+    res.violation(
+      f"C07:ENERGY:spring-potential-{b['regime']}-deadband",
+      f"polynomial-stiffness springs, tendon {b['regime']} its spring deadband [.1,.3] (length {b['ten_length'][0]:.3g}): potential energy / e_potential sensor MuJoCo {np.round(b['mujoco_energy'], 5).tolist()} vs MJWarp {np.round(b['mjwarp_energy'], 5).tolist()} (energy flag {b['energy_flag']})",
+      {"kind": "spring-energy", "xml": SPRING_XML, **b},
+    )
   bad, data = run_rk4("RK4")
   okE, dataE = run_rk4("Euler")
   res.count(2)
@@ -995,6 +1054,10 @@ def replay(res, path):
   if r["kind"] == "directed":
     bad, data = run_directed(r["key"])
     print("mismatch" if bad else "agree", json.dumps(data)[:2000])
+    return 0
+  if r["kind"] == "spring-energy":
+    bad = run_spring_energy()
+    print("mismatch" if bad else "agree", json.dumps(bad)[:3000])
     return 0
   if r["kind"] == "energy-flag":
     bad, data = run_energy_flag()
